@@ -303,17 +303,18 @@ func canonFields(fs [][2]string) map[string][]string {
 	return m
 }
 
-func isHopName(name string, hop [][2]string) bool {
+// isHopName: the fixed hop-by-hop fields, and the fields named by the Connection lines of the response as net/http
+// delivered it to the cache (net/http deletes every Connection line of an HTTP/1.1 response when one of them says
+// "close"; names listed there are then unknowable to anything behind http.Transport)
+func isHopName(name string, connLines []string) bool {
 	switch http.CanonicalHeaderKey(name) {
 	case "Connection", "Keep-Alive", "Te", "Transfer-Encoding", "Upgrade", "Proxy-Connection", "Proxy-Authenticate", "Proxy-Authentication-Info", "Proxy-Authorization", "Trailer":
 		return true
 	}
-	for _, h := range hop {
-		if strings.EqualFold(h[0], "Connection") {
-			for _, n := range strings.Split(h[1], ",") {
-				if strings.EqualFold(strings.TrimSpace(n), name) {
-					return true
-				}
+	for _, line := range connLines {
+		for _, n := range strings.Split(line, ",") {
+			if strings.EqualFold(strings.TrimSpace(n), name) {
+				return true
 			}
 		}
 	}
@@ -364,16 +365,7 @@ func TestBytes(t *testing.T) {
 	for i, hs := range hdrs {
 		add("cl", []int{200, 203, 404, 410, 301}[i%5], bodies[7+i%5], hs, hopCorpus[(i+1)%len(hopCorpus)])
 	}
-	if !thorough {
-		// a spread of the grid
-		var pick []*byteCase
-		for i, c := range cases {
-			if i%3 == int(seed%3) || len(c.Body) > 60000 {
-				pick = append(pick, c)
-			}
-		}
-		cases = pick
-	}
+	_ = seed
 
 	var lines, wire []string
 	backends := []string{"mem", "fs", "fsenc"}
@@ -412,6 +404,7 @@ func TestBytes(t *testing.T) {
 			}
 			var problems []string
 			var statuses []string
+			var lastDelivered *deliveredResp
 			for round := 0; round < 2; round++ {
 				req, _ := http.NewRequest("GET", url, nil)
 				resp, err := rt.RoundTrip(req)
@@ -440,11 +433,12 @@ func TestBytes(t *testing.T) {
 					problems = append(problems, "no origin response recorded")
 					break
 				}
+				lastDelivered = d
 				if !bytes.Equal(d.body.Bytes(), c.Body) || d.status != c.Status {
 					problems = append(problems, fmt.Sprintf("harness: net/http delivered %d bytes status %d, the origin wrote %d bytes status %d", d.body.Len(), d.status, len(c.Body), c.Status))
 				}
 				for k, vs := range d.header {
-					if isHopName(k, c.Hop) {
+					if isHopName(k, d.header["Connection"]) {
 						continue
 					}
 					if k == "Age" && st != "MISS" {
@@ -455,10 +449,10 @@ func TestBytes(t *testing.T) {
 					}
 				}
 				for k := range resp.Header {
-					if isHopName(k, c.Hop) && (round == 1 || k != "Connection") {
+					if isHopName(k, d.header["Connection"]) && (round == 1 || k != "Connection") {
 						problems = append(problems, fmt.Sprintf("round %d (%s): hop-by-hop field %s in the returned response: %q", round, st, k, resp.Header[k]))
 					}
-					if _, ok := d.header[k]; !ok && !isHopName(k, c.Hop) {
+					if _, ok := d.header[k]; !ok && !isHopName(k, d.header["Connection"]) {
 						switch k {
 						case "Age", "X-Httpcache-Status", "X-From-Cache", "Date":
 						default:
@@ -472,6 +466,9 @@ func TestBytes(t *testing.T) {
 			for _, ev := range append(fg, bg...) {
 				if strings.HasPrefix(ev, " S ") {
 					for _, h := range c.Hop {
+						if lastDelivered != nil && !isHopName(h[0], lastDelivered.header["Connection"]) {
+							continue
+						}
 						if strings.Contains(ev, hx(http.CanonicalHeaderKey(h[0]))+" ") && !strings.EqualFold(h[0], "Connection") {
 							problems = append(problems, fmt.Sprintf("hop-by-hop field %s stored", h[0]))
 						}
